@@ -29,6 +29,9 @@ var vfVoteAnswers map[string]*vfVoteAnswer
 var vfVoteMgr *ArbiterManager
 
 func vfStub_ArbiterClient_Request(c *ArbiterClient, command *protocol.CallCommand) (*protocol.CallResultCommand, error) {
+	if command.MethodName == "REPL_PROPOSAL" || command.MethodName == "REPL_COMMIT" {
+		return vfCandidateRequest(c, command)
+	}
 	a := vfVoteAnswers[c.member.host]
 	if a == nil || a.lost || command.MethodName != "REPL_VOTE" {
 		return nil, errors.New("lost")
